@@ -1,5 +1,5 @@
 """C09 - key encodings (WIF, SEC) round-trip and out-of-range keys are rejected."""
-from ..core import attempt, V, R
+from ..core import attempt, V, R, HarnessError
 from ..ref import hd, secp, enc
 
 LEVEL = "exploration"
@@ -218,6 +218,26 @@ def run(ctx):
         ks.update(N - 2**i for i in range(0, 255))
     ks = sorted(k for k in ks if 0 < k < N)
     ctx.product("valid-scalars", [{"k": "scalar", "v": "%x" % k} for k in ks], execute)
+    # corner classes of the computed intermediates (vf/corners.py): x, y, the four WIF checksums and the low scalar bytes -
+    # a scalar for every byte position being 00 / ff and for every first / last byte value
+    from .. import corners
+    base = int.from_bytes(enc.sha256(b"C09-corner-base-%d" % ctx.seed), "big") % (N - 10**6) + 1
+
+    def cands():
+        for k, pt in corners.scalar_walk(base, secp):
+            kb = k.to_bytes(32, "big")
+            f = {"x": pt[0].to_bytes(32, "big"), "y": pt[1].to_bytes(32, "big"), "klow": kb[-2:]}
+            for t in (False, True):
+                for c in (True, False):
+                    f["ck_%d%d" % (t, c)] = enc.hash256((b"\xef" if t else b"\x80") + kb + (b"\x01" if c else b""))[:4]
+            yield k, f
+    shape = {"x": 32, "y": 32, "klow": 2, "ck_00": 4, "ck_01": 4, "ck_10": 4, "ck_11": 4}
+    kept, st = corners.cover(cands(), shape, 60000, pairs=ctx.thorough, impossible=[("z", "klow", 0), ("f", "klow", 0)] + [
+        (w, "klow", c) for w in ("first",) for c in range(256)])
+    ctx.extra["intermediate_corner_classes"] = st
+    if st["covered"] != st["classes"]:
+        raise HarnessError("corner cover incomplete: %r" % (st,))
+    ctx.product("intermediate-corners", [{"k": "scalar", "v": "%x" % k} for k, _ in kept], execute, chunk=8)
     bad = []
     for v in (0, N, N + 1, 2**256 - 1, 2**256, 2**256 + 1, -1, -N, 2**300):
         bad.append({"k": "bad", "form": "int", "val": str(v)})
